@@ -52,12 +52,14 @@ CHECKS = {
     },
     "C04": {
         "level": "exploration",
-        "units": [unit("c04-root", "root", ["zz_verif_c04_test.go"], "^TestVerifC04", shards={"quick": 12, "thorough": 16})],
+        "units": [unit("c04-root", "root", ["zz_verif_c04_test.go"], "^TestVerifC04", shards={"quick": 12, "thorough": 16}),
+                  unit("c06-keysizes", "root", ["zz_verif_c06_test.go", "zz_verif_c11_test.go", "zz_verif_c06_keysizes_test.go"], "^TestVerifC06KeySizes$", shards={"quick": 6, "thorough": 6})],
         "assumptions": ["zero-knowledge of the responses themselves is not decidable by enumeration; what is decided is that no hidden value or its hash exponent occurs as a leaf or substring of what the holder sends"],
     },
     "C05": {
         "level": "exploration",
-        "units": [unit("c05-root", "root", ["zz_verif_c05_test.go"], "^TestVerifC05", shards={"quick": 12, "thorough": 16})],
+        "units": [unit("c05-root", "root", ["zz_verif_c05_test.go"], "^TestVerifC05", shards={"quick": 12, "thorough": 16}),
+                  unit("c06-keysizes", "root", ["zz_verif_c06_test.go", "zz_verif_c11_test.go", "zz_verif_c06_keysizes_test.go"], "^TestVerifC06KeySizes$", shards={"quick": 6, "thorough": 6})],
         "assumptions": ["math/big ProbablyPrime (Baillie-PSW + Miller-Rabin) decides primality in the reference predicate"],
     },
     "C20": {
@@ -135,7 +137,8 @@ CHECKS = {
     "C06": {
         "level": "fault_enumeration",
         "units": [unit("c06-root", "root", ["zz_verif_c06_test.go", "zz_verif_c11_test.go"], "^TestVerifC06", shards={"quick": 16, "thorough": 16}),
-                  unit("c06-interleave", "root", ["zz_verif_c06_interleave_test.go"], "^TestVerifC06Interleaved$", shards={"quick": 8, "thorough": 8})],
+                  unit("c06-interleave", "root", ["zz_verif_c06_interleave_test.go"], "^TestVerifC06Interleaved$", shards={"quick": 8, "thorough": 8}),
+                  unit("c06-keysizes", "root", ["zz_verif_c06_test.go", "zz_verif_c11_test.go", "zz_verif_c06_keysizes_test.go"], "^TestVerifC06KeySizes$", shards={"quick": 6, "thorough": 6})],
         "assumptions": ["with a keyshare contribution the commitment proof is completed by the keyshare server; that exchange is C14's"],
     },
     "C14": {
